@@ -9,6 +9,7 @@ import (
 	"fmt"
 	"strings"
 	"sync"
+	"time"
 
 	"github.com/robinbraemer/event"
 
@@ -181,7 +182,7 @@ func main() {
 	rng := lib.NewRng(f.Seed)
 	out := lib.NewOut("C25", f)
 	out.Imports = "From Verif Require Import Model.PluginMsg.\n"
-	out.Rule = "one HandlePacket call per case; handler uniform over the four; message kind register 34% / unregister 12% / brand 8% / BungeeCord 5% / custom 41% with mixed-case ASCII channel names; register bodies are NUL-separated lists over 15 item shapes (valid, no namespace, leading colon, upper case, two colons, empty, FML|HS, non-ASCII), empty bodies, 32766/32767/32768-byte bodies, 1023/1024/1025 channels, existing channel count 0 or 1019..1024 with lists sized to land on 1023/1024/1025 in total; server connection present/has conn/PLAY state/write result/closed/phase, in-flight connection, client phase, registrar membership, subscriber decision (default/allow/deny), config readiness drawn independently; distinct = distinct Coq term; non-trivial = an event fired, a write happened or the message was queued"
+	out.Rule = "one HandlePacket call per case; handler uniform over the four; message kind register 34% / unregister 12% / brand 8% / BungeeCord 5% / custom 41% with mixed-case ASCII channel names; register bodies are NUL-separated lists over 15 item shapes (valid, no namespace, leading colon, upper case, two colons, empty, FML|HS, non-ASCII), empty bodies, 32766/32767/32768-byte bodies, 1023/1024/1025 channels, existing channel count 0 or 1019..1024 with lists sized to land on 1023/1024/1025 in total; server connection present/has conn/PLAY state/write result/closed/phase, in-flight connection, client phase, registrar membership, subscriber decision (default/allow/deny), config readiness drawn independently; distinct = distinct Coq term; non-trivial = an event fired, a write happened or the message was queued; plus 48 histories (12 per handler): 2..4 messages on registered channels back to back through ONE handler instance, bodies of equal / decreasing / increasing length, the PluginMessageEvent subscriber of each message channel-gated until the next message has been handled, recording Data() at its start and end and the bytes written"
 	n := f.Count(480)
 	for i := 0; i < n; i++ {
 		r := rng.Fork()
@@ -189,7 +190,181 @@ func main() {
 		term, desc, nt, tags := runCase(c)
 		out.Add(term, desc, nt, tags...)
 	}
+	// histories: 2..4 messages back to back through the SAME handler instance, events still in flight
+	hn := f.Count(48)
+	for i := 0; i < hn; i++ {
+		r := rng.Fork()
+		term, desc, tags := runHistoryCase(r, i%4)
+		out.Add(term, desc, true, tags...)
+	}
 	out.Finish()
+}
+
+// runHistoryCase drives k plugin messages on registered channels through one handler instance. The
+// PluginMessageEvent subscriber of message i records Data(), then blocks until message i+1 has been
+// handled (channel-gated), records Data() again and allows forwarding; the write of message i is
+// awaited before the next gate opens, so the j-th write belongs to the j-th message.
+func runHistoryCase(r *lib.Rng, handler int) (string, map[string]any, []string) {
+	const wait = 5 * time.Second
+	k := r.Range(2, 4)
+	shape := r.PickS("equal", "equal", "decreasing", "decreasing", "increasing")
+	base := r.Pick(4, 8, 18, 40)
+	type hm struct {
+		channel string
+		data    []byte
+		payload []byte
+	}
+	msgs := make([]hm, k)
+	for i := range msgs {
+		n := base
+		switch shape {
+		case "decreasing":
+			n = base + (k-1-i)*r.Range(1, 3)
+		case "increasing":
+			n = base + i*r.Range(1, 3)
+		}
+		ch := r.PickS("my:chan", "my:chan", "x:y")
+		d := r.Bytes(n)
+		msgs[i] = hm{ch, d, payloadOf(ch, d)}
+	}
+	prot := version.Minecraft_1_20_2.Protocol
+	mgr := event.New()
+	reg := message.NewChannelRegistrar()
+	for _, c := range []string{"my:chan", "x:y"} {
+		id, _ := message.ChannelIdentifierFrom(c)
+		reg.Register(id)
+	}
+	client := pmsg.NewConn(0, state.Play, prot)
+	backend := pmsg.NewConn(1, state.Play, prot)
+	env := proxy.VerifC25NewEnv(client, mgr, reg, phase.VanillaClientPhase)
+	sa := env.NewServer("alpha", backend, phase.VanillaBackendPhase)
+	env.SetConnectedServer(sa)
+
+	var mu sync.Mutex
+	type wrec struct {
+		conn int
+		w    pmsg.Write
+	}
+	var writes []wrec
+	wrote := make(chan struct{}, 64)
+	hook := func(id int) func(pmsg.Write) {
+		return func(w pmsg.Write) {
+			mu.Lock()
+			writes = append(writes, wrec{id, w})
+			mu.Unlock()
+			wrote <- struct{}{}
+		}
+	}
+	starts, ends := make([][]byte, k), make([][]byte, k)
+	started := make([]chan struct{}, k)
+	gates := make([]chan struct{}, k)
+	for i := range gates {
+		started[i], gates[i] = make(chan struct{}), make(chan struct{})
+	}
+	next := 0
+	hang := ""
+	event.Subscribe(mgr, 0, func(e *proxy.PluginMessageEvent) {
+		mu.Lock()
+		i := next
+		next++
+		mu.Unlock()
+		if i >= k {
+			return
+		}
+		starts[i] = append([]byte{}, e.Data()...)
+		close(started[i])
+		select {
+		case <-gates[i]:
+		case <-time.After(wait):
+		}
+		ends[i] = append([]byte{}, e.Data()...)
+		e.SetForward(true)
+	})
+	var h netmc.SessionHandler
+	switch handler {
+	case 0:
+		h = env.ClientPlayHandler()
+	case 1:
+		h = env.ClientConfigHandler()
+		_ = proxy.VerifC24FlushConfig(h, sa)
+	case 2:
+		h = sa.BackendConfigHandler()
+	case 3:
+		h = sa.BackendPlayHandler()
+	}
+	client.Hook, backend.Hook = hook(0), hook(1)
+	dir := gproto.ServerBound
+	if handler >= 2 {
+		dir = gproto.ClientBound
+	}
+	awaitWrite := func(i int) {
+		select {
+		case <-wrote:
+		case <-time.After(wait):
+			hang = fmt.Sprintf("no write for message %d", i)
+		}
+	}
+	for i, m := range msgs {
+		pc := &gproto.PacketContext{Direction: dir, Protocol: prot, PacketID: 0x18,
+			Packet: &plugin.Message{Channel: m.channel, Data: append([]byte(nil), m.data...)}, Payload: append([]byte(nil), m.payload...)}
+		h.HandlePacket(pc)
+		select {
+		case <-started[i]:
+		case <-time.After(wait):
+			hang = fmt.Sprintf("subscriber of message %d never started", i)
+		}
+		if i > 0 {
+			close(gates[i-1]) // message i has been handled: the subscriber of message i-1 may go on
+			awaitWrite(i - 1)
+		}
+	}
+	close(gates[k-1])
+	awaitWrite(k - 1)
+	mgr.Wait()
+
+	envT := lib.App("mkEnv", "true", lib.N(0), srvTerm(srvSpec{present: true, hasConn: true, play: true, writeOK: true}, 1), "None",
+		"true", "true", "SAllow", lib.Bool(handler == 1))
+	msgT := lib.ListOf(msgs, func(m hm) string {
+		return lib.App("mkMsg", lib.Str(m.channel), lib.Bytes(m.data), lib.Bytes(m.payload))
+	})
+	mu.Lock()
+	ws := append([]wrec(nil), writes...)
+	mu.Unlock()
+	obs := make([]string, k)
+	stable := true
+	for i := range msgs {
+		var wt []string
+		if i < len(ws) {
+			w := ws[i]
+			switch w.w.Kind {
+			case "raw":
+				wt = append(wt, lib.App("WRaw", lib.N(uint64(w.conn)), lib.Bytes(w.w.Payload)))
+			case "pkt":
+				wt = append(wt, lib.App("WPkt", lib.N(uint64(w.conn)), lib.Bool(w.w.OK), lib.Str(w.w.Channel), lib.Bytes(w.w.Data)))
+			default:
+				wt = append(wt, lib.App("WPkt", lib.N(uint64(w.conn)), "false", lib.Str("<"+w.w.Type+">"), "[]"))
+			}
+		}
+		if i == k-1 && len(ws) > k { // more writes than messages: show them on the last one
+			wt = append(wt, lib.App("WPkt", lib.N(99), "false", lib.Str("<extra>"), "[]"))
+		}
+		if hang != "" && i == 0 {
+			wt = append(wt, lib.App("WPkt", lib.N(99), "false", lib.Str("<hang>"), "[]"))
+		}
+		if !bytes.Equal(starts[i], ends[i]) {
+			stable = false
+		}
+		obs[i] = lib.App("mkH", lib.Bytes(starts[i]), lib.Bytes(ends[i]), lib.List(wt))
+	}
+	term := lib.App("Check.C25.mkHist", handlerNames[handler], envT, msgT, lib.List(obs))
+	lens := make([]int, k)
+	for i, m := range msgs {
+		lens[i] = len(m.data)
+	}
+	desc := map[string]any{"kind": "history", "handler": handlerNames[handler], "messages": k, "body_lengths": lens, "shape": shape,
+		"bodies_hex":        lib.ListOf(msgs, func(m hm) string { return fmt.Sprintf("%s:%x", m.channel, m.data) }),
+		"event_data_stable": stable, "writes": len(ws), "hang": hang}
+	return term, desc, []string{"handler=" + handlerNames[handler], "kind=history", "history-lengths=" + shape, fmt.Sprintf("history-messages=%d", k)}
 }
 
 func runCase(c caseSpec) (string, map[string]any, bool, []string) {
